@@ -233,13 +233,16 @@ class Indentation(afmformats.AFMForceDistance):
         # different than in the previous fit, the following two
         # lines will reset the "hash" in the fit properties, triggering
         # a new fit.
+        # set a default model (needed for self.get_initial_fit_parameters;
+        # before the keyword arguments, because setting the model resets
+        # the initial parameters)
+        if ("model_key" not in self.fit_properties
+                and "model_key" not in kwargs):
+            self.fit_properties["model_key"] = FP_DEFAULT["model_key"]
+
         # (sorted, such that `model_key` is set before `params_initial`)
         for arg in sorted(kwargs.keys()):
             self.fit_properties[arg] = kwargs[arg]
-
-        # set a default model (needed for self.get_initial_fit_parameters)
-        if "model_key" not in self.fit_properties:
-            self.fit_properties["model_key"] = FP_DEFAULT["model_key"]
 
         # set default initial parameters
         if ("params_initial" not in self.fit_properties
